@@ -719,7 +719,7 @@ func (x *Exec) heapHavocAll(st *State) {
 	}
 	st.ghost["$havocAll"] = TTrue
 	for k := range st.ghost {
-		if strings.HasPrefix(k, "$havocBase:") {
+		if strings.HasPrefix(k, "$havocBase:") || k == "$havoc:*" {
 			delete(st.ghost, k)
 		}
 	}
